@@ -169,6 +169,19 @@ def corpus():
     for s in G.PLAIN_STRINGS:
         out.append({"kind": "quoted", "value": s, "indent": 2})
         out.append({"kind": "rawblock", "value": s, "indent": 2})
+    # number literals (seeded C03-g): the printer emits the lexed text; -0 is a valid IntValue that is not the
+    # text of any Python int; every value position, next to 0; integer literals beyond CPython's 4300-digit
+    # int <-> str limit (one or two cases: text is a list of code points on the model side)
+    for lit in G.INT_LITERALS + G.FLOAT_LITERALS:
+        out.append(doc_case(
+            'query Q($v: Int = %(n)s, $w: [Int] = [%(n)s, 0]) @d(a: %(n)s) { f(a: %(n)s, b: [0, %(n)s, [%(n)s]], '
+            'c: {k: %(n)s, j: {i: %(n)s}}) @d(x: %(n)s) } type T @d(a: %(n)s) { f(x: Int = %(n)s): Int } '
+            'input I { a: Int = %(n)s @d(b: [%(n)s]) } directive @d(a: Int = %(n)s) on FIELD' % {"n": lit}, 2))
+        out.append({"kind": "doc", "text": "{ f(a: %s) }" % lit, "indent": "\t", "incl": True})
+    for i in INDENTS:
+        out.append(doc_case("{ f(a: -0, b: [-0, 0, -0.0]) }", i))
+    for digits in (4301, 5000):
+        out.append(doc_case("{ f(a: %s, b: -%s) }" % ("7" * digits, "1" + "0" * digits), 2))
     # histories (seeded C03-f): printing is a pure function of (indent, include_descriptions, doc), so a
     # sequence of print_ast / ASTPrinter calls in one process must give the model's text call by call.
     # Each history uses one indent with BOTH flag values on documents that carry definition-level
